@@ -22,6 +22,7 @@ import (
 	"sync"
 	"time"
 
+	"verif/diffprog"
 	"verif/gen"
 	"verif/lib"
 )
@@ -37,6 +38,7 @@ type detProg struct {
 	order  *orderProg
 	genp   *gen.Program
 	labels bool
+	stable bool // all K runs were byte-identical (set by the determinism monitor)
 }
 
 type runOut struct {
@@ -50,6 +52,8 @@ func (r runOut) key() string { return lib.Hash(r.stdout, r.stderr, fmt.Sprint(r.
 var stampRe = regexp.MustCompile(`\d{4}-\d\d-\d\d \d\d:\d\d:\d\d`)
 
 var (
+	crashMu sync.Mutex
+	crashes int
 	env     *lib.Env
 	evalsMu sync.Mutex
 	evals   int
@@ -77,6 +81,14 @@ func runCLI(path string, mask bool) (runOut, string) {
 		return runOut{}, "watchdog fired"
 	}
 	o := runOut{stdout: r.Stdout, stderr: r.Stderr, exit: r.Exit, sig: r.Signal}
+	if crash, _ := lib.GoCrash(r); crash {
+		// a Go runtime crash dump (goroutine ids, addresses) is not a diagnostic of the
+		// interpreter; crashes are C01/C02/C03's findings. Compare the crash site only.
+		o.stderr = "GO-CRASH at " + lib.PanicSite(r.Stderr)
+		crashMu.Lock()
+		crashes++
+		crashMu.Unlock()
+	}
 	if mask {
 		o.stdout = stampRe.ReplaceAllString(o.stdout, "<STAMP>")
 		o.stderr = stampRe.ReplaceAllString(o.stderr, "<STAMP>")
@@ -123,6 +135,7 @@ func main() {
 			path: writeProg("order", name, op.src)})
 	}
 	rg := e.Rand("gen")
+	genSkipped := 0
 	for i := 0; i < nGen; i++ {
 		cfg := gen.Config{MaxDepth: 2 + rg.Intn(4), Budget: 15 + rg.Intn(50), Disabled: e.Quarantined}
 		if i%2 == 1 {
@@ -130,9 +143,25 @@ func main() {
 			cfg.ThrowBias = rg.Intn(8)
 		}
 		gp := gen.Generate(rg, cfg)
+		// programs the reference interpreter gives up on (unbounded recursion, step budget) are
+		// outside C02/C05's domain and outside ours: they end in a Go stack overflow
+		if exp, bug := diffprog.Expected(gp); bug != "" || exp.Abort != "" {
+			genSkipped++
+			if genSkipped < 20*nGen {
+				i--
+			}
+			continue
+		}
 		src := gen.Source(gp)
 		name := fmt.Sprintf("gen%04d", i)
 		progs = append(progs, &detProg{name: name, class: "gen", src: src, genp: gp, path: writeProg("gen", name, src)})
+	}
+	nLookup := e.Pick(20, 150)
+	rl := e.Rand("lookup")
+	for i := 0; i < nLookup; i++ {
+		src := genLookupProgram(rl)
+		name := fmt.Sprintf("lookup%04d", i)
+		progs = append(progs, &detProg{name: name, class: "lookup", src: src, labels: true, path: writeProg("lookup", name, src)})
 	}
 	incPath := writeProg("state", "c20_inc", incFileSource)
 	mods := stateModules(incPath)
@@ -168,6 +197,8 @@ func main() {
 
 	// ------------------------------------------------------------------ evidence
 	e.Extra("runs_per_program", K)
+	e.Extra("runs_ending_in_go_crash_compared_by_site_only", crashes)
+	e.Extra("generated_programs_outside_reference_domain_skipped", genSkipped)
 	e.Extra("programs_by_class", det.byClass)
 	e.Extra("programs_with_identical_runs", det.identical)
 	e.Extra("programs_nondeterministic", det.nondet)
@@ -248,6 +279,7 @@ func checkDeterminism(p *detProg, st *detStats) {
 		return
 	}
 	same := allSame(outs)
+	p.stable = same
 	st.mu.Lock()
 	st.byClass[p.class]++
 	if same {
@@ -258,9 +290,10 @@ func checkDeterminism(p *detProg, st *detStats) {
 	st.mu.Unlock()
 
 	judged := 0
-	unstableStore := map[int]bool{} // block idx whose canary differs between runs
+	unstableStore := map[int]bool{}    // block idx whose canary differs between runs
+	unstableLabel := map[string]bool{} // labels whose payload differs between runs (reported as nondet:)
 	if !same {
-		reportNondet(p, outs, unstableStore)
+		reportNondet(p, outs, unstableStore, unstableLabel)
 	}
 	if p.order != nil {
 		// monitor 2, in every run (a run is cheap to judge and the order may differ per run)
@@ -287,10 +320,13 @@ func checkDeterminism(p *detProg, st *detStats) {
 				judged++
 				var bi int
 				fmt.Sscanf(v.label, "%d.", &bi)
-				if v.sink == "store" && unstableStore[bi] {
-					continue // already reported as nondet:<kind>:store
+				if (v.sink == "store" && unstableStore[bi]) || unstableLabel[v.label] {
+					continue // already reported as nondet:store:<kind> / nondet:<sink>:<family>
 				}
-				key := "order:" + v.kind + ":" + v.sink
+				key := "order:" + v.sink + ":" + family(v.kind)
+				if v.sink == "store" {
+					key = "order:store:" + v.kind
+				}
 				if reported[key] {
 					continue
 				}
@@ -322,6 +358,15 @@ func checkDeterminism(p *detProg, st *detStats) {
 	st.mu.Unlock()
 }
 
+// family of a container kind: "array" or "object" (violation keys name the sink and the
+// family, the store's own keys name the exact container kind)
+func family(kind string) string {
+	if isArrayKind(kind) {
+		return "array"
+	}
+	return "object"
+}
+
 func clip(s string, n int) string {
 	if len(s) > n {
 		return s[:n] + "…"
@@ -330,7 +375,7 @@ func clip(s string, n int) string {
 }
 
 // reportNondet attributes a difference between runs.
-func reportNondet(p *detProg, outs []runOut, unstableStore map[int]bool) {
+func reportNondet(p *detProg, outs []runOut, unstableStore map[int]bool, unstableLabel map[string]bool) {
 	distinct := map[string]int{}
 	var reps []runOut
 	for _, o := range outs {
@@ -389,6 +434,9 @@ func reportNondet(p *detProg, outs []runOut, unstableStore map[int]bool) {
 				ids = append(ids, id)
 			}
 			sort.Strings(ids)
+			for _, id := range ids {
+				unstableLabel[id] = true
+			}
 			if p.order != nil {
 				for _, id := range ids {
 					var bi int
@@ -408,9 +456,9 @@ func reportNondet(p *detProg, outs []runOut, unstableStore map[int]bool) {
 					var key string
 					if unstableStore[bi] {
 						// everything printed from an unstable store differs; it is the store's defect
-						key = "nondet:" + kind + ":store"
+						key = "nondet:store:" + kind
 					} else {
-						key = "nondet:" + kind + ":" + sink
+						key = "nondet:" + sink + ":" + family(kind)
 					}
 					if done[key] {
 						continue
@@ -422,10 +470,22 @@ func reportNondet(p *detProg, outs []runOut, unstableStore map[int]bool) {
 				}
 				return
 			}
-			// state programs
-			id := ids[0]
-			w := describe(fmt.Sprintf("unstable observation %s: %q vs %q", id, clip(per[0][id], 300), clip(otherPayload(per, id), 300)))
-			env.Violation("nondet:state:"+id, w, "php", replay(w))
+			// state and lookup programs: one key per observation channel (the label without the
+			// group suffix .g<n> of lookup programs)
+			done := map[string]bool{}
+			for _, id := range ids {
+				ch := id
+				if i := strings.LastIndex(ch, ".g"); i > 0 && p.class == "lookup" {
+					ch = ch[:i]
+				}
+				key := "nondet:" + p.class + ":" + ch
+				if done[key] {
+					continue
+				}
+				done[key] = true
+				w := describe(fmt.Sprintf("unstable observation %s: %q vs %q", id, clip(per[0][id], 300), clip(otherPayload(per, id), 300)))
+				env.Violation(key, w, "php", replay(w))
+			}
 			return
 		}
 	}
@@ -447,7 +507,7 @@ func reportNondet(p *detProg, outs []runOut, unstableStore map[int]bool) {
 			path := writeProg("shrink", p.name, gen.Source(g))
 			o, inc := runK(&detProg{path: path}, K)
 			return inc == "" && !allSame(o)
-		}, 150)
+		}, 40)
 		src := gen.Source(q)
 		w := describe(what)
 		env.Violation("nondet:gen:"+lib.Hash(src), w, "php", []byte(src+"\n/* ---- verif C20 determinism (minimised generated program) ----\n"+w+"\n*/\n"))
